@@ -2116,6 +2116,7 @@ impl<E: Effect> Executor<E> {
 
                 // Return routing request for scheduler to handle
                 Ok(Some(Action::Deliver {
+                    sender: pid,
                     target: target_pid,
                     value: message,
                 }))
